@@ -12,6 +12,10 @@ class ParseError(Exception):
     pass
 
 
+class FrontEndCrash(ParseError):
+    """an action of the scanner or parser reads or writes outside an object (null pointer, out of bounds)"""
+
+
 class Tables:
     def __init__(self, path):
         try:
@@ -66,6 +70,7 @@ class Parser:
         if hooks:
             self.scn.ev.hooks.update(hooks)
         self.ev = self.scn.ev
+        self.ev.null_is_null = True       # every object of the front end is modelled: a null `this` is a null pointer dereference
         # token name -> external token number
         self.toknum = None
         for e in prog.enums.values():
@@ -115,6 +120,8 @@ class Parser:
             try:
                 toks = self._tokens(text)
             except flexsim.ScanError as x:
+                if "memory error" in str(x):
+                    raise FrontEndCrash("scanner: %s" % x)
                 raise ParseError("scanner: %s" % x)
             T = self.T
             states = [0]
@@ -190,7 +197,7 @@ class Parser:
                     except Thrown as x:
                         raise ParseError("action: %s" % x)
                     except OutOfBounds as x:
-                        raise ParseError("memory error in the action of rule %d: %s" % (rule, x))
+                        raise FrontEndCrash("the action of grammar rule %d: %s" % (rule, x))
                 for _ in range(ln):
                     states.pop()
                 top -= ln
